@@ -117,14 +117,18 @@ def cases(tier, seed):
             for linear in (True, False):
                 out.append(dict(driver="wf_re_cmean", model=spec, signal_space=sig, model_is_linear=linear))
         out.append(dict(driver="wf_re_csamples", model=spec, signal_space=True, ns=1))
-    order = dict(wfc_cl=0, map_cl=1, mgvi_cl=2, wfc_cl_cplx=2.5, wf_re_api=3, wf_re_mean=4, wf_re_cmean=4.5, wf_re_samples=5,
+    # MGVI on several (forced host) devices: antithetic pairs, exact mean, same samples as on one device
+    devcases = []
+    for ndev, ns in ((2, 1), (4, 2), (4, 4)):
+        devcases.append(dict(driver="mgvi_re_devices", ndev=ndev, ns=ns))
+    order = dict(mgvi_re_devices=8, wfc_cl=0, map_cl=1, mgvi_cl=2, wfc_cl_cplx=2.5, wf_re_api=3, wf_re_mean=4, wf_re_cmean=4.5, wf_re_samples=5,
                  wf_re_csamples=5.5, map_re=6, mgvi_re=7)
 
     def cost(c):
         r = M.Ref(c["model"])
         return (order[c["driver"]], len(r.keys), r.n, c.get("ns", 0), c["model"]["name"], str(sorted((k, str(v)) for k, v in c.items() if k != "model")))
     out.sort(key=cost)
-    return out
+    return out + devcases
 
 
 # =====================================================================================
@@ -709,6 +713,72 @@ def _run_mgvi_re(case):
         return out
     return ok(nontrivial=bool(np.abs(ref.R).max() > 0), outcome="%s|ns=%d|%s" % (drv, ns, _rk(spec)),
               stats=dict(unit_vectors=r["n"]), detail=det)
+
+
+def _devices_child(ndev, ns):
+    """Runs in a fresh interpreter started with XLA_FLAGS=--xla_force_host_platform_device_count=<ndev>."""
+    import json
+    import logging
+    import jax
+    jax.config.update("jax_enable_x64", True)
+    import jax.numpy as jnp
+    import nifty.re as jft
+    logging.getLogger("nifty.re.logger").setLevel(logging.ERROR)
+    assert len(jax.devices()) == ndev, jax.devices()
+    R = jnp.array([[1.0, 0.5, 0.2], [0.2, -1.0, 0.3]])
+    d = jnp.array([0.3, -1.2])
+    lh = jft.Gaussian(d, noise_std_inv=lambda t: 2.0 * t).amend(lambda x: R @ x["a"])
+    pos = jft.Vector({"a": jnp.array([0.1, -0.2, 0.4])})
+    Mm = 4 * np.asarray(R).T @ np.asarray(R) + np.eye(3)
+    m = np.linalg.solve(Mm, 4 * np.asarray(R).T @ np.asarray(d))
+    res = {}
+    for tag, dev in (("single", None), ("multi", jax.devices())):
+        s, _ = jft.optimize_kl(
+            lh, pos, key=jax.random.PRNGKey(3), n_total_iterations=2, n_samples=ns, sample_mode="linear_resample",
+            devices=dev, residual_map="smap" if dev is None else jax.vmap, kl_map=jax.vmap,
+            draw_linear_kwargs=dict(cg=jft.conjugate_gradient.static_cg, cg_name=None, cg_kwargs=dict(absdelta=1e-14, maxiter=20)),
+            kl_kwargs=dict(minimize=jft.optimize._static_newton_cg,
+                           minimize_kwargs=dict(name=None, xtol=1e-12, cg_kwargs=dict(name=None), maxiter=10)))
+        sm = np.asarray(s._samples.tree["a"])
+        res[tag] = dict(mean=np.asarray(s.pos.tree["a"]).tolist(), samples=sm.tolist())
+    res["exact_mean"] = m.tolist()
+    print("RESULT:" + json.dumps(res))
+
+
+def _run_mgvi_re_devices(case):
+    import json
+    import subprocess
+    import sys
+    ndev, ns = int(case["ndev"]), int(case["ns"])
+    env = dict(os.environ)
+    env["XLA_FLAGS"] = "--xla_force_host_platform_device_count=%d" % ndev
+    code = "from vf.props import c20; c20._devices_child(%d, %d)" % (ndev, ns)
+    pr = subprocess.run([sys.executable, "-c", code], env=env, capture_output=True, text=True, timeout=1500)
+    r = [json.loads(l[7:]) for l in pr.stdout.splitlines() if l.startswith("RESULT:")]
+    det = dict(ndev=ndev, ns=ns)
+    if not r:
+        return bad("jft.optimize_kl on %d devices with n_samples=%d failed: %s" % (ndev, ns, pr.stderr[-600:]),
+                   finding_key="mgvi_re_devices|raises|ndev=%d|ns=%d" % (ndev, ns), detail=det)
+    r = r[0]
+    m = np.array(r["exact_mean"])
+    for tag in ("single", "multi"):
+        sm = np.array(r[tag]["samples"])
+        if sm.shape[0] != 2 * ns:
+            return bad("%s-device MGVI holds %d samples, expected %d" % (tag, sm.shape[0], 2 * ns),
+                       finding_key="mgvi_re_devices|sample-count|%s" % tag, detail=det)
+        mir = float(np.abs(sm[0::2] + sm[1::2]).max())
+        if mir > 1e-12:
+            return bad("%s-device MGVI (%d devices, n_samples=%d): samples are not antithetic pairs (s, -s): max |s_2i + s_2i+1| = %.3g"
+                       % (tag, ndev, ns, mir), finding_key="mgvi_re_devices|mirror-not-negative|%s" % tag, detail=det)
+        dm = float(np.abs(np.array(r[tag]["mean"]) - m).max())
+        if dm > 1e-10:
+            return bad("%s-device MGVI (%d devices, n_samples=%d): mean differs from the exact posterior mean by %.3g"
+                       % (tag, ndev, ns, dm), finding_key="mgvi_re_devices|mean-mismatch|%s" % tag, detail=det)
+    dd = float(np.abs(np.array(r["multi"]["samples"]) - np.array(r["single"]["samples"])).max())
+    if dd > 1e-10:
+        return bad("MGVI samples on %d devices differ from the single-device samples with the same key by %.3g" % (ndev, dd),
+                   finding_key="mgvi_re_devices|differs-from-single", detail=det)
+    return ok(nontrivial=True, outcome="mgvi_re_devices|ndev=%d|ns=%d" % (ndev, ns), detail=det)
 
 
 def finish(run):
